@@ -45,6 +45,7 @@ type facts struct {
 	WriteSites  []string            `json:"write_sites"` // index assignments / delete / in hand-written files
 	VisitorGen  [][2]string         `json:"visitor_gen"` // function of jsonquery_visitor_impl.go -> translated | forwards:X | unsupported: why
 	VisitorNote []string            `json:"visitor_notes"`
+	OpsGen      [][2]string         `json:"ops_gen"` // function of operation.go / *_operation.go -> translated | unsupported: why
 }
 
 func leanStr(s string) string {
@@ -935,6 +936,9 @@ func main() {
 	vsrc, vstatus, vnotes := genVisitor(fset, decls, declFile, f.TokenConsts, render)
 	f.VisitorGen, f.VisitorNote = vstatus, vnotes
 	os.WriteFile(filepath.Join(outdir, "Visitor.lean"), []byte(vsrc), 0o644)
+	osrc, ostatus := genOps(fset, decls, declFile, embeds, render)
+	f.OpsGen = ostatus
+	os.WriteFile(filepath.Join(outdir, "Ops.lean"), []byte(osrc), 0o644)
 
 	js, _ := json.MarshalIndent(f, "", " ")
 	os.WriteFile(outjson, js, 0o644)
